@@ -31,11 +31,11 @@ BASE_FACEBOOK_URL = "https://www.facebook.com"
 
 FACEBOOK_ID_RE = re.compile(r"^\d+$")
 FACEBOOK_FULL_ID_RE = re.compile(r"^\d+_\d+$")
-FACEBOOK_DOMAIN_RE = re.compile(r"(?:^|\.)(?:facebook\.[^.]+|fb\.me)$", re.I)
+FACEBOOK_DOMAIN_RE = re.compile(r"(?:^|\.)(?:facebook\.[^.]+|fb\.me)$", re.I | getattr(re, "A", 0))
 FACEBOOK_URL_RE = re.compile(
-    DOMAIN_TEMPLATE % (DOMAIN_LABELS_PREFIX + r"(?:facebook\.[^\s./?#@:]+|fb\.me)"), re.I
+    DOMAIN_TEMPLATE % (DOMAIN_LABELS_PREFIX + r"(?:facebook\.[^\s./?#@:]+|fb\.me)"), re.I | getattr(re, "A", 0)
 )
-MOBILE_REPLACE_RE = re.compile(r"^([^.]+\.)?facebook\.", re.I)
+MOBILE_REPLACE_RE = re.compile(r"^([^.]+\.)?facebook\.", re.I | getattr(re, "A", 0))
 
 URL_EXTRACT_RE = re.compile(QUERY_VALUE_IN_URL_TEMPLATE % r"u")
 
